@@ -103,6 +103,14 @@ def target_case(draw):
     fail = draw(st.sampled_from([None] * 6 + ["type", "literal", "dimension", "constant", "undeclared"]))
     if fail == "dimension" and not dim:
         fail = "type"
+    if fail == "constant" and draw(st.booleans()):
+        # a constant that was only declared: its single later assignment is refused like any other
+        declared, first, mods = True, None, mods[:1]
+        nmods = 1
+    if fail is None and kind == "int" and dim is None and tkw in ("int64", "uint64") and draw(st.booleans()):
+        # the last assignment is an integer a double cannot hold
+        mods[-1]["val"] = draw(st.sampled_from(["9007199254740993", "1234567890123456789", "4611686018427387905"]))
+        mods[-1]["unit"] = None
     if fail == "undeclared":
         declared = True
         first = None
